@@ -51,6 +51,14 @@ def r16a(ctx):
     for n in walk_no_nested(f.node):
         if isinstance(n, ast.If) and ast.unparse(n.test).replace(" ", "") == "newisNone":
             arm = n
+        elif isinstance(n, ast.If) and ast.unparse(n.test).replace(" ", "") == "newisnotNone" and n.orelse:
+            # same decision written the other way round: normalise to (count arm, replace arm)
+            arm = ast.If(test=n.test, body=n.orelse, orelse=n.body)
+            ast.copy_location(arm, n)
+            for ch in ast.walk(arm):
+                for c2 in ast.iter_child_nodes(ch):
+                    c2._parent = ch
+            arm._parent = getattr(n, "_parent", None)
     if arm is None:
         raise AnalysisError("R16a: `if new is None` arm not found in Element.replace")
     loop = None
